@@ -537,6 +537,13 @@ class Parser:
             if cur:
                 params.append(cur)
             self.expect(')')
+        if self.at('->'):
+            # trailing return type: skipped up to the body
+            self.next()
+            while not self.at('{'):
+                if self.peek()[0] == 'eof':
+                    self.err('unterminated lambda')
+                self.next()
         body = self.parse_block()
         return ('lambda', [c for c in caps if c != ','], [p[-1] for p in params], body)
 
